@@ -372,3 +372,59 @@ def finish(ctx, level="proof"):
         "FAIL" if rc else "PASS", pid, ctx.tier, ctx.seed, cov["obligations"], cov["discharged"],
         cov["evaluations"], time.time() - ctx.t0))
     return rc
+
+
+# ------------------------------------------------------------------------------------------------
+# translator-tie coverage in the evidence (appended; produced by harness/tiecoverage.py, a mutation audit of which
+# functions / module-level statements of src/ecdsa each generator sees).  `finish` is wrapped, not edited.
+def tie_coverage_for(pid, extra_props=()):
+    """the part of evidence/tie_coverage.json that concerns property `pid`: every function of the modules its anchors name
+    and every unit whose change makes this property's check re-prove something, each with the generators that see it
+    (style, probes seen / probes made).  Module-level statements are summarised by counts."""
+    path = os.path.join(EVID, "tie_coverage.json")
+    if not os.path.exists(path):
+        return {"available": False, "how": "run /venv/bin/python harness/tiecoverage.py"}
+    doc = json.load(open(path))
+    spaces = set([pid] + list(extra_props))
+    stale = []
+    for m, h in doc.get("src_hash", {}).items():
+        try:
+            cur = hashlib.sha1(open(os.path.join(SRC, "ecdsa", m + ".py"), "rb").read()).hexdigest()[:16]
+        except OSError:
+            cur = None
+        if cur != h:
+            stale.append(m)
+    funcs, stmts = [], {"total": 0, "covered": 0, "reproved_by_this_check": 0}
+    modules = set()
+    for u in doc.get("units", []):
+        mine = pid in u.get("properties", []) or bool(spaces & set(u.get("props_namespaces", [])))
+        anchored = pid in u.get("anchored_by", [])
+        if not (mine or anchored):
+            continue
+        modules.add(u["module"])
+        by = {g: "%s %d/%d" % ("+".join(e["styles"]), e["seen"], e["points"]) for g, e in sorted(u.get("generators", {}).items())}
+        if u["kind"] == "function":
+            funcs.append({"unit": u["unit"], "live": u.get("live"), "covered": u["covered"], "by": by,
+                          "reproved_by_this_check": mine, "props_namespaces": [n for n in u.get("props_namespaces", []) if n in spaces]})
+        else:
+            stmts["total"] += 1
+            stmts["covered"] += 1 if u["covered"] != "none" else 0
+            stmts["reproved_by_this_check"] += 1 if mine else 0
+    return {"available": True, "source": "evidence/tie_coverage.json (harness/tiecoverage.py, mutation audit)",
+            "repo_head_audited": doc.get("repo_head"), "stale_modules": stale, "modules": sorted(modules),
+            "functions": funcs, "functions_total": len(funcs),
+            "functions_uncovered": [f["unit"] for f in funcs if f["covered"] == "none" and f["live"] is not False],
+            "functions_reproved_by_this_check": sum(1 for f in funcs if f["reproved_by_this_check"]),
+            "module_level_statements": stmts,
+            "recommended_extra_props": doc.get("rest_extra_props", {}).get(pid, {}).get("recommended", [])}
+
+
+_finish_without_tie_coverage = finish
+
+
+def finish(ctx, level="proof"):
+    try:
+        ctx.cov["tie_coverage"] = tie_coverage_for(ctx.pid, getattr(ctx, "extra_props", []))
+    except Exception as e:  # noqa  (the audit file is optional: never let it break a check)
+        ctx.cov["tie_coverage"] = {"available": False, "error": "%s: %s" % (type(e).__name__, e)}
+    return _finish_without_tie_coverage(ctx, level)
